@@ -1,0 +1,106 @@
+//! Verification hooks. Only compiled with the cargo feature `verif_hooks`.
+//!
+//! `OrderMap` replaces `std::collections::HashMap` inside `utils::group_by` and
+//! `left_factoring::find_prefix` (by a function-scope `use`), so that an external harness can
+//! choose every iteration order a `HashMap` might produce.
+
+use std::cell::RefCell;
+
+#[derive(Default)]
+struct Oracle {
+    preset: Vec<usize>,
+    pos: usize,
+    trace: Vec<(usize, usize)>,
+}
+
+thread_local! {
+    static ORACLE: RefCell<Oracle> = RefCell::new(Oracle::default());
+}
+
+/// Installs the choices to take at the next choice points of this thread and clears the trace.
+pub fn reset(preset: Vec<usize>) {
+    ORACLE.with(|o| {
+        *o.borrow_mut() = Oracle {
+            preset,
+            pos: 0,
+            trace: Vec::new(),
+        }
+    });
+}
+
+/// Returns the (choice taken, number of options) pairs since the last `reset`.
+pub fn take_trace() -> Vec<(usize, usize)> {
+    ORACLE.with(|o| std::mem::take(&mut o.borrow_mut().trace))
+}
+
+/// A choice point with `n` options; beyond the preset the default 0 is taken.
+pub fn choose(n: usize) -> usize {
+    if n <= 1 {
+        return 0;
+    }
+    ORACLE.with(|o| {
+        let mut o = o.borrow_mut();
+        let c = o.preset.get(o.pos).copied().unwrap_or(0);
+        assert!(c < n, "verif_hooks: preset choice {c} out of range {n}");
+        o.pos += 1;
+        o.trace.push((c, n));
+        c
+    })
+}
+
+/// Map with the subset of the `HashMap` API used by the hooked functions; iteration order is
+/// a permutation of the insertion order decided by `choose`.
+pub struct OrderMap<K, V> {
+    items: Vec<(K, V)>,
+}
+
+impl<K: Eq, V> OrderMap<K, V> {
+    /// Creates an empty map
+    pub fn new() -> Self {
+        Self { items: Vec::new() }
+    }
+    /// See `HashMap::get_mut`
+    pub fn get_mut(&mut self, k: &K) -> Option<&mut V> {
+        self.items.iter_mut().find(|(x, _)| x == k).map(|(_, v)| v)
+    }
+    /// See `HashMap::insert`
+    pub fn insert(&mut self, k: K, v: V) -> Option<V> {
+        if let Some(old) = self.get_mut(&k) {
+            return Some(std::mem::replace(old, v));
+        }
+        self.items.push((k, v));
+        None
+    }
+    fn permutation(n: usize) -> Vec<usize> {
+        let mut rest: Vec<usize> = (0..n).collect();
+        let mut res = Vec::with_capacity(n);
+        while !rest.is_empty() {
+            let c = choose(rest.len());
+            res.push(rest.remove(c));
+        }
+        res
+    }
+    /// See `HashMap::iter`; order chosen by the oracle
+    pub fn iter(&self) -> impl Iterator<Item = (&K, &V)> {
+        Self::permutation(self.items.len())
+            .into_iter()
+            .map(|i| (&self.items[i].0, &self.items[i].1))
+            .collect::<Vec<_>>()
+            .into_iter()
+    }
+    /// See `HashMap::drain`; order chosen by the oracle
+    pub fn drain(&mut self) -> impl Iterator<Item = (K, V)> + use<K, V> {
+        let perm = Self::permutation(self.items.len());
+        let mut slots: Vec<Option<(K, V)>> = self.items.drain(..).map(Some).collect();
+        perm.into_iter()
+            .map(|i| slots[i].take().unwrap())
+            .collect::<Vec<_>>()
+            .into_iter()
+    }
+}
+
+impl<K: Eq, V> Default for OrderMap<K, V> {
+    fn default() -> Self {
+        Self::new()
+    }
+}
